@@ -190,4 +190,7 @@ theorem server_table_bounded (s0 : Server.St) (rs : List Req) (h0 : CInv s0) :
 
 end handler
 
+/-- regenerated from the source on every run: MNT cleans the requested path before it becomes the key handles are deduplicated on -/
+theorem gen_mnt_cleans_path : Gen.mntCleansPath = true := by decide
+
 end Props.C05
